@@ -115,6 +115,8 @@ def run(repo, tier):
     check_representation(rep, facts, rel, 'R12.2')
     check_total(rep, facts, rel, 'R12.4.total')
     check_structure(rep, facts, rel, 'R12.5')
+    from .. import labelrules as _LB
+    _LB.check_live_env(rep, facts, 'R12.6.live-env')
     rep.floor('criteria rules', 27)
     rep.floor('constructor arguments classified', 40)
     return rep
